@@ -224,6 +224,7 @@ func TestVerifC12Conc(t *testing.T) {
 	scens := []scen{
 		{name: "close||close", calls: []string{"close", "close"}},
 		{name: "close||close||close", calls: []string{"close", "close", "close"}},
+		{name: "close x8", calls: []string{"close", "close", "close", "close", "close", "close", "close", "close"}},
 		{name: "data||close", calls: []string{"data", "close"}},
 		{name: "data||data||close", calls: []string{"data", "data", "close"}},
 		{name: "poll||close", calls: []string{"poll", "close"}, pre: "backend-send"},
@@ -236,6 +237,9 @@ func TestVerifC12Conc(t *testing.T) {
 		counts := map[string]int{}
 		var example []string
 		nrep := reps
+		if sc.name == "close x8" {
+			nrep = reps * 6 // the window in which two closes both get hold of the connection is narrow
+		}
 		if sc.name == "poll||poll" {
 			nrep = 2 // the poll that finds the queue empty legitimately waits for the 20 s poll time-out
 		}
